@@ -209,10 +209,16 @@ def case_crosshair(ctx, hi):
         ctx.inconclusive.append("crosshair/find_allowed_size: not confirmed (%s)" % out.strip()[-200:].replace("\n", " "))
 
 
-def case_fixed_point(ctx):
-    """theoretical covariance is a fixed point of the von Karman row recursion: C04's identities"""
+def case_fixed_point(ctx, history=False):
+    """theoretical covariance is a fixed point of the von Karman row recursion: C04's identities
+    (also for an instance created after another one with a different r0)"""
     from . import C04
-    C04.case_screen(ctx, "vk", 2, 2, False)
+    C04.case_screen(ctx, "vk", 2, 2, history)
+
+
+def case_own_generator(ctx):
+    from . import C04
+    C04.case_own_generator(ctx, "vk")
 
 
 def build_cases(tier):
@@ -227,6 +233,8 @@ def build_cases(tier):
     cases.append(("allowed-size/symbolic-nx<=%d" % hi, case_allowed, dict(hi=hi)))
     cases.append(("allowed-size/crosshair<=%d" % (70 if tier == "quick" else 1030), case_crosshair, dict(hi=70 if tier == "quick" else 1030)))
     cases.append(("fixed-point/vk/nx=2/cols=2", case_fixed_point, {}))
+    cases.append(("fixed-point/vk/nx=2/cols=2/after-another-r0", case_fixed_point, dict(history="r0")))
+    cases.append(("own-generator/vk", case_own_generator, {}))
     return cases
 
 
